@@ -191,6 +191,32 @@ Proof.
   - rewrite H1, Hn3. split; [reflexivity|]. now rewrite Hid3 in H2.
 Qed.
 
+(* ---- (5) the poll as a suspendable operation ---------------------------------- *)
+(* whatever happened while the poll was hanging (h: advertisements, accepted broadcasts, other
+   operations), a FAILED poll changes nothing: no accepted number is un-accepted *)
+Lemma failed_poll_changes_nothing w c i h :
+  final_ops_w w c (poll_begin i ++ h ++ poll_end i PollFail) = final_ops_w w c h.
+Proof. cbn [poll_begin poll_end app]. now rewrite app_nil_r. Qed.
+
+(* hence an advertisement accepted while the poll was hanging is still ignored as a replay
+   after the poll failed *)
+Lemma replay_after_failed_poll w c i hdr body h2 j p k n :
+  wf_ctrl c ->
+  nth_error c j = Some p -> p_key p = Some k ->
+  accepts_at w c (hdr, body) j n ->
+  let c2 := final_ops_w w c (poll_begin i ++ (OAdv (hdr, body) :: map OAdv h2) ++ poll_end i PollFail) in
+  let r := detect_w w c2 (hdr, body) in
+  sn_at (fst (fst r)) j = sn_at c2 j /\ calls_for (p_id p) (snd r) = [].
+Proof.
+  intros Hwf Hn Hk Hacc c2 r.
+  assert (E : c2 = final_w w (fst (fst (detect_w w c (hdr, body)))) h2).
+  { unfold c2. rewrite failed_poll_changes_nothing. cbn [final_ops_w fold_left apply_w].
+    unfold final_w. generalize (fst (fst (detect_w w c (hdr, body)))). induction h2 as [|f r0 IH]; intros c0; [reflexivity|].
+    cbn [map fold_left apply_w]. apply IH. }
+  subst r. rewrite E.
+  exact (no_replay_same w c [] hdr body h2 j p k n Hwf Hn Hk Hacc).
+Qed.
+
 (* ---- examples --------------------------------------------------------------------- *)
 Definition rx_id : bytes := [1;2;3;4;5;6].
 Definition rx_p (s : N) : pairing := mkP rx_id (Some 7) (Some s) (Some s) [(11, FU8)] true.
